@@ -23,6 +23,7 @@ type Query struct {
 	// "light" variant of a query replaces them by true (fewer assumptions:
 	// still sound).
 	quantDefs map[int]string
+	axioms    map[string]bool
 }
 
 func newQuery(u *Universe) *Query {
@@ -56,6 +57,19 @@ func isAtom(t string) bool {
 		return strings.Count(t, "|") == 2 && t[len(t)-1] == '|'
 	}
 	return !strings.ContainsAny(t, " (")
+}
+
+// axiom adds a globally valid fact (an instance of a satisfiable axiom about
+// uninterpreted symbols) once.
+func (q *Query) axiom(text string) {
+	if q.axioms == nil {
+		q.axioms = map[string]bool{}
+	}
+	if q.axioms[text] {
+		return
+	}
+	q.axioms[text] = true
+	q.decls = append(q.decls, "(assert "+text+")")
 }
 
 func (q *Query) note(format string, args ...any) {
@@ -142,6 +156,22 @@ func (q *Query) declareHeap(key, sort string) {
 		panic("heap key " + key + " with two sorts: " + old + " / " + sort)
 	}
 	q.heapSort[key] = sort
+	globalHeapSort[key] = sort
+}
+
+// globalHeapSort remembers the sort of every heap key ever declared in this
+// run, so that cached write sets can be used in any query.
+var globalHeapSort = map[string]string{}
+
+func (q *Query) keySort(key string) (string, bool) {
+	if s, ok := q.heapSort[key]; ok {
+		return s, true
+	}
+	if s, ok := globalHeapSort[key]; ok {
+		q.heapSort[key] = s
+		return s, true
+	}
+	return "", false
 }
 
 func (s *State) get(key string) string {
@@ -152,7 +182,7 @@ func (s *State) get(key string) string {
 }
 
 func (s *State) set(key, term string) {
-	sortOf, ok := s.q.heapSort[key]
+	sortOf, ok := s.q.keySort(key)
 	if !ok {
 		panic("undeclared heap key " + key)
 	}
@@ -163,7 +193,7 @@ func (e *epoch) resolve(q *Query, key string) string {
 	if t, ok := e.cache[key]; ok {
 		return t
 	}
-	sortOf, ok := q.heapSort[key]
+	sortOf, ok := q.keySort(key)
 	if !ok {
 		panic("undeclared heap key " + key)
 	}
@@ -248,7 +278,7 @@ func (s *State) assumeRaw(c string) { s.assume(c) }
 
 // havocKey replaces one heap array by a fresh one, preserving listed refs.
 func (s *State) havocKey(key string, keepRefs []string) {
-	sortOf := s.q.heapSort[key]
+	sortOf, _ := s.q.keySort(key)
 	old := s.get(key)
 	t := s.q.fresh("hv_"+key, sortOf)
 	if len(keepRefs) > 0 && strings.HasPrefix(sortOf, "(Array Int ") {
@@ -323,10 +353,16 @@ func mergeStates(q *Query, arms []mergeArm) *State {
 				ok = false
 			}
 		}
-		if !ok {
+		iterGhost := strings.HasPrefix(k, "visited_") || strings.HasPrefix(k, "strpos_")
+		if !ok && iterGhost {
 			continue
 		}
-		st.ghost[k] = mergeTerms(q, "gm_"+k, q.ghostSort(k), arms, func(s *State) string { return s.ghost[k] })
+		st.ghost[k] = mergeTerms(q, "gm_"+k, q.ghostSort(k), arms, func(s *State) string {
+			if t, has := s.ghost[k]; has {
+				return t
+			}
+			return q.ghostEntry(k)
+		})
 	}
 	dk := map[int]bool{}
 	for _, a := range arms {
@@ -425,4 +461,19 @@ func topConjuncts(t string) []string {
 	}
 	flush(len(body))
 	return out
+}
+
+func (q *Query) sortOfKey(key string) string {
+	s, _ := q.keySort(key)
+	return s
+}
+
+// ghostEntry: the entry value of a global ghost variable.
+func (q *Query) ghostEntry(key string) string {
+	name := "|G0_" + sanitize(key) + "|"
+	if _, ok := q.consts[name]; !ok {
+		q.consts[name] = q.ghostSort(key)
+		q.decls = append(q.decls, fmt.Sprintf("(declare-const %s %s)", name, q.ghostSort(key)))
+	}
+	return name
 }
